@@ -685,6 +685,93 @@ def _pattern_ok(pat_text):
     return good
 
 
+def _repair_by_slices(fn_node, compiled, subj, on_miss):
+    """the same repair written without the capture group: m = <^_+>.match(subj); rest = subj[m.end():]; the first character of rest is
+    lower-cased exactly when it is an ASCII capital ('A' <= c <= 'Z'); returns '_' + that character + rest[1:].  -> (ok, why) or None
+    when the function is not of this shape at all"""
+    import copy
+    mvar = None
+    for n in ast.walk(fn_node):
+        if not (isinstance(n, ast.Assign) and isinstance(n.value, ast.Call) and isinstance(n.targets[0], ast.Name)):
+            continue
+        c = n.value
+        pat = None
+        if ast.unparse(c.func) == "re.match" and len(c.args) == 2 and isinstance(c.args[0], ast.Constant) and ast.unparse(c.args[1]) == subj:
+            pat = c.args[0].value
+        elif isinstance(c.func, ast.Attribute) and c.func.attr == "match" and isinstance(c.func.value, ast.Name) and c.func.value.id in compiled \
+                and len(c.args) == 1 and ast.unparse(c.args[0]) == subj:
+            pat = compiled[c.func.value.id]
+        if pat in ("_+", "^_+", "\\A_+"):
+            mvar = n.targets[0].id
+    if mvar is None:
+        return None
+
+    class B(ast.NodeTransformer):
+        def __init__(self, env):
+            self.env = env
+
+        def visit_Name(self, node):
+            if isinstance(node.ctx, ast.Load) and node.id in self.env:
+                return copy.deepcopy(self.env[node.id])
+            return node
+
+    rem = f"{subj}[{mvar}.end():]"
+    first = f"{rem}[:1]"
+    alt_first = (first, f"{rem}[0:1]")
+    n_ret = n_miss = 0
+    for path in pyfront.enumerate_paths(fn_node.body):
+        if path.outcome not in ("return", "raise"):
+            continue
+        env, terms = {}, []
+        conds = [c for c in path.conds if not isinstance(c[0], str)]
+        k = 0
+        for st in path.stmts:
+            if isinstance(st, ast.If):
+                if k < len(conds):
+                    t_, pol = conds[k]
+                    k += 1
+                    terms += pyfront.guard_terms([(B(env).visit(copy.deepcopy(t_)), pol)])
+            elif isinstance(st, (ast.Assign, ast.AnnAssign)) and getattr(st, "value", None) is not None:
+                tg = st.targets[0] if isinstance(st, ast.Assign) else st.target
+                if isinstance(tg, ast.Name) and tg.id != mvar:
+                    env[tg.id] = B(env).visit(copy.deepcopy(st.value))
+        terms = [(e.replace(" ", ""), p_) for e, p_ in terms]
+        matched = (mvar, True) in terms or (f"{mvar}isnotNone", True) in terms or (f"{mvar}isNone", False) in terms
+        last = path.stmts[-1]
+        if path.outcome == "raise":
+            n_miss += 1
+            if on_miss is None or last.exc is None or ast.unparse(last.exc) != on_miss or matched:
+                return False, "raise is not the pending error on the no-match path"
+            continue
+        is_none = last.value is None or (isinstance(last.value, ast.Constant) and last.value.value is None)
+        if is_none:
+            if on_miss is not None or matched:
+                return False, "returns None where a repaired token or the pending error is due"
+            n_miss += 1
+            continue
+        n_ret += 1
+        val = B(env).visit(copy.deepcopy(last.value))
+        parts = [x.replace(" ", "") for x in _concat_parts(val)]
+        if not matched or len(parts) != 3 or parts[0] != "'_'" or parts[2] != f"{rem}[1:]":
+            return False, f"return of {parts} (match known: {matched})"
+        capital = None
+        for x in alt_first:
+            for e, pol in terms:
+                if e in (f"'A'<={x}<='Z'", f"'Z'>={x}>='A'", f"{x}instring.ascii_uppercase"):
+                    capital = pol
+        if parts[1] in [f"{x}.lower()" for x in alt_first]:
+            if capital is not True:
+                return False, f"`{parts[1]}` on a path that does not establish 'A' <= c <= 'Z' (non-ASCII capitals would be altered, unlike ^_+([A-Z]?))"
+        elif parts[1] in alt_first:
+            if capital is not False:
+                return False, "the character after the underscores is kept as it is on a path where it may be an ASCII capital"
+        else:
+            return False, f"return of {parts}"
+    if not n_ret or not n_miss:
+        return False, "no return / no re-raise"
+    return True, ""
+
+
 def _repair_core(fn_node, module_tree, subj, on_miss):
     """the repair `_` + lower-cased first letter + rest computed from a match of ^_+([A-Z]?) on `subj`: returned on every path where the
     match is known; on the other paths the function raises the pending error (on_miss = name of that parameter) or returns None
@@ -708,6 +795,9 @@ def _repair_core(fn_node, module_tree, subj, on_miss):
         if pat is None:
             continue
         if not _pattern_ok(pat):
+            alt = _repair_by_slices(fn_node, compiled, subj, on_miss)
+            if alt is not None:
+                return alt
             return False, f"pattern {pat!r} is not ^_+([A-Z]?)"
         mvar = n.targets[0].id
     if mvar is None:
@@ -913,6 +1003,25 @@ def rule_config(ctx, px, root):
         rets = [ast.unparse(r.value) for r in ast.walk(f.node) if isinstance(r, ast.Return)]
         ok = bool(rets) and all(".strop(" in r for r in rets)
         ctx.ob(R, m.rel, f"{lang}: Language.filter_id returns the encoder's strop() result", ok, f"{rets}", f.node.lineno)
+        # ... for the category it was asked for: the identifier type travels to strop() as given (the rules of a category the language
+        # has no table for are the 'all' rules - TokenEncoder looks the type up and skips what is absent; substituting another
+        # category changes which names count as reserved, so valid names of that category come back altered)
+        for g, who in ((f, "Language.filter_id"), (m.funcs.get("filter_id"), "filter_id (template filter)")):
+            if g is None:
+                raise AnalysisError(f"anchor missing: {who} of {lang}")
+            ps = [a.arg for a in g.node.args.args]
+            cat = ps[-1]
+            calls = [c for c in ast.walk(g.node) if isinstance(c, ast.Call) and isinstance(c.func, ast.Attribute) and c.func.attr in ("strop", "filter_id")]
+            passed = [ast.unparse(c.args[1]) if len(c.args) > 1 else next((ast.unparse(k.value) for k in c.keywords if k.arg in ("id_type", "token_type")), None) for c in calls]
+            rebound = [n for n in ast.walk(g.node) if isinstance(n, ast.Name) and n.id == cat and isinstance(n.ctx, ast.Store)]
+            harmless = [a for a in ast.walk(g.node) if isinstance(a, ast.Assign) and len(a.targets) == 1 and isinstance(a.targets[0], ast.Name) and a.targets[0].id == cat
+                        and ast.unparse(a.value) in (f"{cat}.lower()", f"str({cat})", f"str({cat}).lower()")]
+            if len(harmless) == len(rebound):
+                rebound = []      # case folding is what the encoder does with the category anyway
+            okc = bool(calls) and all(x == cat for x in passed) and not rebound
+            ctx.ob(R, m.rel, f"{lang}: {who} hands its identifier category to the encoder as given", okc,
+                   "" if okc else (f"`{cat}` is re-bound before the call" if rebound else f"passes {passed}") +
+                   ": names are stropped by the rules of a different category than the one asked for (valid names of that category are altered)", g.node.lineno)
 
 
 def run(ctx):
